@@ -38,7 +38,7 @@ package store
 //@   requires sdb != nil
 //@   fresh res0
 //@   modifies state(sdb.db)
-//@   ensures [C06] dbFailed(sdb.db) == (old(dbFailed(sdb.db)) || res1 != nil)
+//@   ensures [C06] dbFailed(sdb.db) == (old(dbFailed(sdb.db)) || res1 != nil) && dbKept(sdb.db)
 //@   ensures [C06] only-parents: res1 == nil ==> (forall k int :: 0 <= k && k < len(res0) ==> wanted(sdb, id, res0[k], includeDeleted))
 //@   ensures [C06] all-parents: res1 == nil ==> (forall u string :: wanted(sdb, id, u, includeDeleted) ==> (exists k int :: 0 <= k && k < len(res0) && res0[k] == u))
 //@   loop 1:
@@ -88,13 +88,13 @@ package store
 //@   modifies state(st.nc), state(st.db.db), points
 //@   decreases rank(st.db, upNodeID)
 //@   assert [C06] self-reach: reachL(st.db, upNodeID, upNodeID) at "client.SendPoints(st.nc, sub, points, false)"
-//@   ensures [C06] log-kept: pubKept(st.nc) && (old(dbFailed(st.db.db)) ==> dbFailed(st.db.db))
+//@   ensures [C06] log-kept: pubKept(st.nc) && dbKept(st.db.db)
 //@   ensures [C06] every-live-ancestor: !busFailed(st.nc) && !dbFailed(st.db.db) ==> (forall a string :: reachL(st.db, upNodeID, a) ==> toldL(st, old(pubN(st.nc)), pubN(st.nc), a, nodeID, points))
 //@   ensures [C06] only-live-ancestors: forall i int :: old(pubN(st.nc)) <= i && i < pubN(st.nc) ==> sameSlice(pubPts(st.nc, i), points) && (exists a string :: reachL(st.db, upNodeID, a) && pubSubj(st.nc, i) == sprintf("up.%v.%v", a, nodeID))
 //@   ensures [C06] same-points: forall k int :: 0 <= k && k < len(points) ==> sameButFilledTime(points[k], old(points[k]))
 //@   loop 1:
 //@     invariant -1 <= rangeindex && rangeindex < len(ups) || rangeindex == -1
-//@     invariant pubKept(st.nc) && (old(dbFailed(st.db.db)) ==> dbFailed(st.db.db)) && pubN(st.nc) > old(pubN(st.nc))
+//@     invariant pubKept(st.nc) && dbKept(st.db.db) && pubN(st.nc) > old(pubN(st.nc))
 //@     invariant pubSubj(st.nc, old(pubN(st.nc))) == sprintf("up.%v.%v", upNodeID, nodeID) && sameSlice(pubPts(st.nc, old(pubN(st.nc))), points)
 //@     invariant !busFailed(st.nc) && !dbFailed(st.db.db) ==> (forall j int, a string :: 0 <= j && j <= rangeindex && reachL(st.db, ups[j], a) ==> toldL(st, old(pubN(st.nc)), pubN(st.nc), a, nodeID, points))
 //@     invariant forall i int :: old(pubN(st.nc)) < i && i < pubN(st.nc) ==> sameSlice(pubPts(st.nc, i), points) && (exists a string :: reachL(st.db, upNodeID, a) && pubSubj(st.nc, i) == sprintf("up.%v.%v", a, nodeID))
@@ -115,13 +115,13 @@ package store
 //@   modifies state(st.nc), state(st.db.db), points
 //@   decreases rank(st.db, upNodeID)
 //@   assert [C06] self-reach: reachA(st.db, upNodeID, upNodeID) at "client.SendPoints(st.nc, sub, points, false)"
-//@   ensures [C06] log-kept: pubKept(st.nc) && (old(dbFailed(st.db.db)) ==> dbFailed(st.db.db))
+//@   ensures [C06] log-kept: pubKept(st.nc) && dbKept(st.db.db)
 //@   ensures [C06] every-ancestor: !busFailed(st.nc) && !dbFailed(st.db.db) ==> (forall a string :: reachA(st.db, upNodeID, a) ==> toldA(st, old(pubN(st.nc)), pubN(st.nc), a, nodeID, parentID, points))
 //@   ensures [C06] only-ancestors: forall i int :: old(pubN(st.nc)) <= i && i < pubN(st.nc) ==> sameSlice(pubPts(st.nc, i), points) && (exists a string :: reachA(st.db, upNodeID, a) && pubSubj(st.nc, i) == sprintf("up.%v.%v.%v", a, nodeID, parentID))
 //@   ensures [C06] same-points: forall k int :: 0 <= k && k < len(points) ==> sameButFilledTime(points[k], old(points[k]))
 //@   loop 1:
 //@     invariant -1 <= rangeindex && rangeindex < len(ups) || rangeindex == -1
-//@     invariant pubKept(st.nc) && (old(dbFailed(st.db.db)) ==> dbFailed(st.db.db)) && pubN(st.nc) > old(pubN(st.nc))
+//@     invariant pubKept(st.nc) && dbKept(st.db.db) && pubN(st.nc) > old(pubN(st.nc))
 //@     invariant pubSubj(st.nc, old(pubN(st.nc))) == sprintf("up.%v.%v.%v", upNodeID, nodeID, parentID) && sameSlice(pubPts(st.nc, old(pubN(st.nc))), points)
 //@     invariant !busFailed(st.nc) && !dbFailed(st.db.db) ==> (forall j int, a string :: 0 <= j && j <= rangeindex && reachA(st.db, ups[j], a) ==> toldA(st, old(pubN(st.nc)), pubN(st.nc), a, nodeID, parentID, points))
 //@     invariant forall i int :: old(pubN(st.nc)) < i && i < pubN(st.nc) ==> sameSlice(pubPts(st.nc, i), points) && (exists a string :: reachA(st.db, upNodeID, a) && pubSubj(st.nc, i) == sprintf("up.%v.%v.%v", a, nodeID, parentID))
@@ -425,3 +425,8 @@ package store
 //@     decreases len(writePoints) - rangeindex
 //@   loop 6:
 //@     invariant txOpen(tx) && txDb(tx) == sdb.db && openTxs(sdb.db) == old(openTxs(sdb.db)) + 1 && commits(sdb.db) == old(commits(sdb.db))
+
+// C04: the journal and synchronisation modes the crash guarantee rests on (SQLite: WAL + synchronous=NORMAL keeps
+// committed transactions across a process crash) are the reviewed ones.
+//@ literal [C04] pragmas "_pragma=journal_mode(WAL)"
+//@ literal [C04] pragmas "_pragma=synchronous(NORMAL)"
